@@ -12,10 +12,13 @@ C10-F2-progress-start-raises C10-revert-start-cleanup C10
 C10-F5-restart-stale-shape C10-revert-shape-reset-live C10
 C10-F5b-restart-overflow-visible C10-revert-overflow-restore C10
 C11-F12-refresh-thread-leak C11-revert-refresh-thread-under-lock C11
-C11-F5c-shape-reset-race C11-revert-shape-read-once C11
+C11-F6b-transient-erase-outside-lock C11-revert-transient-erase-under-lock C11
+C10-F13-partial-line-flushed-after-stop C10-revert-flush-at-stop-progress C10
 C12-F1-negative-speed C12-advance-clock-outside C12
 C15-F8-captured-output-recorded C15-revert-record-at-write C15
 C15-F9-control-code-in-html C15-revert-simplify-control C15
+C15-F14-nested-capture C15-revert-capture-start C15
 C19-F10-flush-markup C19-revert-flush-verbatim C19
+C19-F15-sgr-reset-drops-link C19-revert-reset-keeps-link C19
 C20-F11-use-theme-inherit C20-revert-use-theme-inherit C20
 LIST
